@@ -778,8 +778,19 @@ fn parent(spec: &CheckSpec, args: &[String]) -> ! {
         let detail_now = rec["detail"].as_str().unwrap_or("").to_string();
         let kn = known::matches(&known, spec.id, &scen, &class, &site, &detail_now);
         if let Some(k) = kn {
-            println!("KNOWN-FINDING: property={} scenario={} class={} site={} count={} first_seed={} ({})", spec.id, scen, class, site, cand["count"], cand["seed"], k.what);
-            known_seen.push(json!({"scenario": scen, "class": class, "site": site, "count": cand["count"], "first_index": cand["index"], "what": k.what}));
+            // a replay file for the known finding too (not minimised): it can be replayed and looked at
+            let safe = |x: &str| -> String { x.chars().map(|c| if c.is_ascii_alphanumeric() { c } else { '_' }).collect() };
+            let kdir = format!("{}/known", replays_dir);
+            let _ = std::fs::create_dir_all(&kdir);
+            let kpath = format!("{}/{}-{}-{}-{}.json", kdir, spec.id, safe(&scen), safe(&class), safe(&site));
+            let mut krec = rec.clone();
+            krec["events"] = o.events.clone();
+            krec["known_finding"] = json!(k.what);
+            krec["not_minimised"] = json!("known finding: recorded as first seen");
+            krec["replay_cmd"] = json!("./check --replay <this file>");
+            let _ = std::fs::write(&kpath, serde_json::to_vec_pretty(&krec).unwrap_or_default());
+            println!("KNOWN-FINDING: property={} scenario={} class={} site={} count={} first_seed={} replay={} ({})", spec.id, scen, class, site, cand["count"], cand["seed"], kpath, k.what);
+            known_seen.push(json!({"scenario": scen, "class": class, "site": site, "count": cand["count"], "first_index": cand["index"], "replay": kpath, "what": k.what}));
             continue;
         }
         // shrink
